@@ -32,7 +32,18 @@ def fit_spec(spec):
         if fam in ("daily", "billing"):
             from harness.props.c12 import fit_real
             df = meter(random.Random(spec["meter_seed"]), spec["kind"])
-            m = fit_real(spec["profile"], df)
+            prior = None
+            if spec.get("reuse_object"):
+                # one model object serves a portfolio: another meter is fitted and predicted with it first
+                d0 = meter(random.Random(spec["meter_seed"] + 3), "cooling" if spec["kind"] != "cooling" else "heating")
+                prior = fit_real(spec["profile"], d0)
+                if fam == "billing":
+                    from opendsm.eemeter.models.billing.data import BillingReportingData as _BR
+                    prior.predict(_BR(d0, is_electricity_data=True), ignore_disqualification=True)
+                else:
+                    from opendsm.eemeter.models.daily.data import DailyReportingData as _DR
+                    prior.predict(_DR(d0, is_electricity_data=True), ignore_disqualification=True)
+            m = fit_real(spec["profile"], df, model=prior)
             from opendsm.eemeter.models.daily.data import DailyReportingData
             rd = DailyReportingData(meter(random.Random(spec["meter_seed"] + 1), spec["kind"]), is_electricity_data=True)
             if fam == "billing":
@@ -46,7 +57,15 @@ def fit_spec(spec):
             from opendsm.eemeter.models.hourly.data import HourlyBaselineData, HourlyReportingData
             hb = HourlyBaselineData(synth_hourly(days=365, seed=spec["meter_seed"]), is_electricity_data=True)
             settings = {} if spec.get("seed") is None else {"seed": spec["seed"]}
-            m = HourlyModel(settings=settings).fit(hb, ignore_disqualification=True)
+            if spec.get("adaptive"):
+                settings["elasticnet"] = dict(adaptive_weights=True, adaptive_weight_max_iter=5, adaptive_weight_tol=1e-3)
+            m = HourlyModel(settings=settings)
+            if spec.get("reuse_object"):
+                # the same model object was used for another meter first (fit + predict): history must not matter
+                hb0 = HourlyBaselineData(synth_hourly(days=365, seed=spec["meter_seed"] + 3), is_electricity_data=True)
+                m.fit(hb0, ignore_disqualification=True)
+                m.predict(HourlyReportingData(synth_hourly(days=20, seed=spec["meter_seed"] + 4), is_electricity_data=True), ignore_disqualification=True)
+            m = m.fit(hb, ignore_disqualification=True)
             pred = m.predict(HourlyReportingData(synth_hourly(days=20, seed=spec["meter_seed"] + 1), is_electricity_data=True), ignore_disqualification=True)
         else:
             from opendsm.eemeter.models.hourly_caltrack.wrapper import HourlyCaltrackModel  # noqa
